@@ -597,11 +597,28 @@ package keeper
 //@ func (k msgServer) MoveAvailableVesting(goCtx, msg) (r0, r1)
 //@   requires msg != nil && cvaSane(fromBech32(msg.FromAddress)) && timeOK($blockTime)
 //@   prop C20
+//@ // C07: move-by-denominations moves, of every selected denomination, exactly what the bank reports as locked on the sender at
+//@ // that moment (bankLocked: x/bank's LockedCoins as a function of the account view and the block time), and nothing of any
+//@ // other denomination; the split itself is splitVestingCoins
 //@ func (k msgServer) MoveAvailableVestingByDenoms(goCtx, msg) (r0, r1)
-//@   requires msg != nil && cvaSane(fromBech32(msg.FromAddress)) && timeOK($blockTime)
-//@   // ValidateBasic accepted the message (since the denom fix it checks every denomination)
-//@   requires forall i: int :: {msg.Denoms[i]} 0 <= i && i < len(msg.Denoms) ==> validDenom(msg.Denoms[i])
-//@   prop C20
+//@   requires msg != nil
+//@   panic_requires cvaSane(fromBech32(msg.FromAddress)) && timeOK($blockTime)
+//@   modifies $accTag, $accNum, $accSeq, $accPub, $accOV, $accDF, $accDV, $accStart, $accEnd, $accNextNum, $evCount, $evTag, $evRef, $bal
+//@   modifies $trFound, $trGenesis, $trFromGenesisPool, $trFromGenesisAccount
+//@   ensures [moves-selected] r1 == nil && fromBech32(msg.FromAddress) != fromBech32(msg.ToAddress) ==> (forall i: int :: {msg.Denoms[i]} 0 <= i && i < len(msg.Denoms) ==>
+//@       $accOV[fromBech32(msg.ToAddress)][msg.Denoms[i]] == old(bankLocked(fromBech32(msg.FromAddress))[msg.Denoms[i]]))
+//@   ensures [moves-nothing-else] r1 == nil && fromBech32(msg.FromAddress) != fromBech32(msg.ToAddress) ==> (forall d: str :: {$accOV[fromBech32(msg.ToAddress)][d]}
+//@       (forall i: int :: {msg.Denoms[i]} 0 <= i && i < len(msg.Denoms) ==> msg.Denoms[i] != d) ==> $accOV[fromBech32(msg.ToAddress)][d] == 0)
+//@   prop C07 C20
+//@ loop msgServer.MoveAvailableVestingByDenoms#1
+//@   invariant 0 <= \i && \i <= len(msg.Denoms) && distinctStrings(msg.Denoms) && denomsAccepted(msg.Denoms, len(msg.Denoms))
+//@   invariant forall k: int :: {msg.Denoms[k]} 0 <= k && k < \i ==> amount[msg.Denoms[k]] == locked[msg.Denoms[k]]
+//@   invariant forall k: int :: {msg.Denoms[k]} \i <= k && k < len(msg.Denoms) ==> amount[msg.Denoms[k]] == 0
+//@   invariant forall d: str :: {amount[d]} (forall k: int :: {msg.Denoms[k]} 0 <= k && k < \i ==> msg.Denoms[k] != d) ==> amount[d] == 0
+//@   invariant forall d: str :: {amount[d]} amount[d] >= 0
+//@ // (the telemetry loop builds label slices: it must not be taken to touch the message's own list)
+//@ loop msgServer.MoveAvailableVestingByDenoms#2
+//@   invariant forall k: int :: {msg.Denoms[k]} 0 <= k && k < len(msg.Denoms) ==> msg.Denoms[k] == old(msg.Denoms[k])
 //@ func (k msgServer) SendToVestingAccount(goCtx, msg) (r0, r1)
 //@   requires msg != nil && poolsSane(msg.Owner) && $pLen[msg.Owner] <= 1000000 && poolTimesSane(msg.Owner) && vestingTypesSane()
 //@   requires timeOK($blockTime) && $blockTime >= -1000000000000000000 && $blockTime <= 1000000000000000000 && (!msg.Amount.IsNil() ==> abs(msg.Amount) <= 1e60)
